@@ -195,7 +195,11 @@ func (g *gen) create(k int) {
 		g.out(k, sval{kind: kRef, id: g.s.push(snode{next: -1})}, hx.Pick(r, []string{"new ", "new ", "newf "})+hexMsg(r))
 	case 9:
 		c := g.varBelow(k)
-		g.out(k, sval{kind: kRef, id: g.s.push(snode{next: -1, cause: g.val(c)})}, hx.Pick(r, []string{"cause ", "causef "})+hexMsg(r)+" "+vn(c))
+		cv := g.val(c)
+		if nilish(cv) {
+			cv = sval{kind: kNil} // NewWithCause drops a typed-nil cause
+		}
+		g.out(k, sval{kind: kRef, id: g.s.push(snode{next: -1, cause: cv})}, hx.Pick(r, []string{"cause ", "causef "})+hexMsg(r)+" "+vn(c))
 	case 10:
 		c := g.varBelow(k)
 		in := g.val(c)
@@ -331,6 +335,9 @@ func (g *gen) history(maxOps int) {
 				res = *v.inner
 			}
 			g.out(g.fresh(), res, "unwrap "+vn(a))
+		case c < 19 && r.Bool():
+			a := g.anyVar()
+			g.out(g.fresh(), g.val(a), "render "+vn(a))
 		case c < 19:
 			a := g.anyVar()
 			v := g.val(a)
